@@ -202,6 +202,26 @@ theorem leaf_native_roundtrip (version kind : String) (fields : List (String × 
     | none => rfl
     | some v => simp [hnative k v hl]
 
+/-- **Exact file round trip of a leaf node**: a node built by the constructor of a class that
+stores its parameters unchanged, holding file-native values and empty metadata, is read back from
+its own file as *exactly the same node* — fields, value types, derived types and metadata. -/
+theorem leaf_exact (version kind : String) (kw : List (String × Val)) (n : Node) (hk : kind ∈ simpleKinds)
+    (h : construct kind kw = .ok n)
+    (hnot : lookup "input_type" kw = none ∧ lookup "output_type" kw = none)
+    (hmeta : n.metadata = .dict [])
+    (hnative : ∀ k v, lookup k n.fields = some v → backVal v = some v)
+    (f : H5) (hwr : write version n = .ok f) : read f = .ok n := by
+  obtain ⟨hkind, hc, he⟩ := construct_kind kind kw n h
+  obtain ⟨hnt, hnm⟩ := construct_fields_clean kind kw n hk h
+  have hidem := construct_idem kind kw n hk h hnot
+  obtain ⟨hw, hg⟩ := simple_generic kind hk
+  cases n with
+  | mk k f' i o m c e =>
+    simp only [Node.kind, Node.children, Node.edges, Node.fields, Node.metadata] at hkind hc he hnt hnm hidem hmeta hnative
+    subst hkind hc he hmeta
+    rw [leaf_native_roundtrip version k f' i o hw hg hnt hnm hnative f hwr, ← construct_meta_default k f' hnm]
+    exact hidem
+
 /-! ## end to end for whole (flat) graphs -/
 
 def GenericKind (kind : String) : Prop :=
@@ -437,6 +457,23 @@ example : ∃ f, write "0.2.0" exLif = .ok f ∧ read f = construct "LIF" exLifF
     apply leaf_native_roundtrip "0.2.0" "LIF" exLifFields _ _ (by decide) (by decide) rfl rfl _ f hf
     intro k v hl
     simp only [exLifFields, lookup] at hl
+    repeat' split at hl
+    all_goals (first | cases hl | skip)
+    all_goals exact backVal_array _ _ _ _ (by decide)
+
+/-- Non-vacuity of `leaf_exact`: the LIF node built by the constructor from four arrays is
+written and read back as itself. -/
+theorem exLif_built : construct "LIF" exLifFields = .ok exLif := by rfl
+
+example : ∃ f, write "0.2.0" exLif = .ok f ∧ read f = .ok exLif := by
+  have hw : (write "0.2.0" exLif).toBool = true := by decide +kernel
+  cases hf : write "0.2.0" exLif with
+  | error e => rw [hf] at hw; cases hw
+  | ok f =>
+    refine ⟨f, rfl, ?_⟩
+    apply leaf_exact "0.2.0" "LIF" exLifFields exLif (by decide) exLif_built ⟨rfl, rfl⟩ rfl _ f hf
+    intro k v hl
+    simp only [exLif, Node.fields, exLifFields, lookup] at hl
     repeat' split at hl
     all_goals (first | cases hl | skip)
     all_goals exact backVal_array _ _ _ _ (by decide)
